@@ -8,14 +8,22 @@ Decided:
          route's methods and continues without executing; trying a later route after execute() requires an
          HTTPException result with is_breaking false *and* add_exception(ret); the method test dominates
          slash handling and execute;
-  R06.c  sentinel priority: last recorded exception, else 405 built from allowed_methods, else 404; recording order:
+  R06.c  sentinel priority (decided in NullRoute.handle_sentinel_condition or in the DispatchState method it hands over
+         to): last recorded exception, else 405 built from allowed_methods, else 404; every dispatch state starts with
+         empty containers of its own (constructor assignment or per-instance factory of a declared field; a value
+         evaluated once for the class / a mutable parameter default is shared by all requests); recording order:
          add_exception puts its argument behind the last element on every path that returns and does nothing else to
          the list, and nobody else writes a dispatch state's list (so [-1] is the most recent error);
-  R06.d  method normalisation: Route upper-cases and validates methods and adds HEAD for GET;
-         match_method upper-cases the request method and admits everything when methods is falsy;
+  R06.d  method normalisation: Route upper-cases and validates methods and adds HEAD for GET (written out or as a
+         loop over a constant table of (listed, implied) pairs -- exactly GET => HEAD);
+         match_method upper-cases the request method -- its parameter, not re-bound before the test -- and admits
+         everything when methods is falsy;
          update_methods unions;
   R06.e  the 405 carries Allow: MethodNotAllowed stores a value derived from allowed_methods under the
          'Allow' header after the response is initialised.
+  R06.f  the first matching route answers also when its endpoint dies with an uncaught exception of *any* type: the
+         conversion that runs inside dispatch's generic handler (uncaught_to_response, the server-error constructors)
+         looks no module attribute up under a computed name without a default or a handler.
 Declined: which pattern matches (C05); full response content.
 """
 import ast
@@ -116,6 +124,14 @@ def run(rep):
     rep.guard(lambda: rep.floor('R06.d', 12))
     run_group(rep, _allow_rules, rep, repo, err)
 
+    def conversion_rules():
+        # ---- R06.f -----------------------------------------------------------
+        rep.rule('R06.f', 'a route that dies with an uncaught exception answers with the handler\'s server error, whatever the exception\'s '
+                          'type: no lookup of a module attribute by computed name, outside a handler, in what runs inside dispatch\'s generic handler')
+        from .c08 import check_conversion_lookups
+        check_conversion_lookups(rep, 'R06.f')
+    run_group(rep, conversion_rules)
+
 
 def check_running_index(rep, rule):
     repo = rep.repo
@@ -186,6 +202,7 @@ def check_running_index(rep, rule):
 def _loop_rules(rep, repo, app, dv, cfg, f):
     # ---- R06.b -----------------------------------------------------------
     head = dv.head
+    # (reachability below follows boolean flags: ``done = True`` ... ``if done: break`` does not go on to the loop header)
     # (i) no effect before the path test: the loop body starts with the match, its result is tested for None next, and the
     #     no-match side does nothing but move on to the next route
     nm = dv.nomatch_branches()
@@ -193,10 +210,10 @@ def _loop_rules(rep, repo, app, dv, cfg, f):
     nxt = [m for n in m_nodes for m in cfg.succ[n] if (n, m) not in cfg.exc_edges]
     tested_next = bool(nxt) and all(cfg.nodes[m].kind == 'head' and isinstance(cfg.nodes[m].stmt, ast.If) and
                                     dv.nomatch_pol(strip_not(cfg.nodes[m].stmt.test)[0]) is not None for m in nxt)
-    after_nm = cfg.reach(nm, avoid=head, normal_only=True) - set(nm)
+    after_nm = dv.reach_f(nm, avoid=head, normal_only=True) - set(nm)
     ok = bool(dv.loop.body) and dv.loop.body[0] is dv.match_st and tested_next and bool(nm) and \
         all(cfg.nodes[m].kind == 'stmt' and isinstance(cfg.nodes[m].stmt, (ast.Continue, ast.Pass)) for m in after_nm) and \
-        bool(set(head) & cfg.reach(nm, normal_only=True)) and cfg.exit not in cfg.reach(nm, avoid=head)
+        bool(set(head) & dv.reach_f(nm, normal_only=True)) and cfg.exit not in dv.reach_f(nm, avoid=head)
     rep.check('R06.b', fkey(f, 'path mismatch continues'), ok,
               'a route whose pattern does not match is skipped before any other effect' if ok else
               'the loop does not start with "params = route.match_path(path); if params is None: continue"', app, dv.loop)
@@ -207,10 +224,10 @@ def _loop_rules(rep, repo, app, dv, cfg, f):
     upd = dv.calls_stmt('update_methods', dv.ds_var)
     mm_t = dv.method_branches(False)
     exec_nodes = cfg.nodes_of(dv.exec_st)
-    ok = bool(mm_t) and bool(upd) and cfg.must_pass(cfg.nodes_of_all(upd), mm_t, head, normal_only=True) and \
-        not (set(exec_nodes) & cfg.reach(mm_t, avoid=head)) and \
+    ok = bool(mm_t) and bool(upd) and dv.must_pass_f(cfg.nodes_of_all(upd), mm_t, head, normal_only=True) and \
+        not (set(exec_nodes) & dv.reach_f(mm_t, avoid=head)) and \
         all(norm(c.value.args[0]) == '%s.methods' % dv.route_var for c in upd) and \
-        bool(set(head) & cfg.reach(mm_t, normal_only=True)) and cfg.exit not in cfg.reach(mm_t, avoid=head, normal_only=True)
+        bool(set(head) & dv.reach_f(mm_t, normal_only=True)) and cfg.exit not in dv.reach_f(mm_t, avoid=head, normal_only=True)
     rep.check('R06.b', fkey(f, 'method mismatch'), ok,
               'a method mismatch records route.methods (for the 405) and moves on without executing the route' if ok else
               'after a method mismatch the route\'s methods are not recorded on every path, or the route is executed anyway', app,
@@ -227,13 +244,13 @@ def _loop_rules(rep, repo, app, dv, cfg, f):
     src = exec_nodes
     for label, nodes in (('dispatch_state.add_exception(ret)', cfg.nodes_of_all(addx)), ('"is_breaking" false', brk_f),
                          ('result is an HTTPException', http_t)):
-        ok = bool(nodes) and cfg.must_pass(nodes, src, head)
+        ok = bool(nodes) and dv.must_pass_f(nodes, src, head)
         rep.check('R06.b', fkey(f, 'fallthrough requires ' + label), ok,
                   'a later route is tried after execute() only through %s' % label if ok else
                   'a later route can be tried after execute() without %s (a breaking/non-HTTP result falls through, or the error is lost)' % label,
                   app, dv.exec_st)
-    ok = bool(addx) and bool(set(head) & cfg.reach(cfg.nodes_of_all(addx), normal_only=True)) and \
-        cfg.exit not in cfg.reach(cfg.nodes_of_all(addx), avoid=head, normal_only=True)
+    ok = bool(addx) and bool(set(head) & dv.reach_f(cfg.nodes_of_all(addx), normal_only=True)) and \
+        cfg.exit not in dv.reach_f(cfg.nodes_of_all(addx), avoid=head, normal_only=True)
     rep.check('R06.b', fkey(f, 'non-breaking error continues'), ok, 'after recording a non-breaking error the next route is tried' if ok else
               'a non-breaking error does not lead to trying the next route', app, addx[0] if addx else dv.exec_st)
     # is_breaking default must be True (missing attribute => breaking)
@@ -252,19 +269,44 @@ def _loop_rules(rep, repo, app, dv, cfg, f):
               'slash handling is reachable before/without the method test', app, br_ifs[0] if br_ifs else dv.loop)
     # every request starts from its own dispatch state (R06.c)
     ds_new = [s for s in stmts_of(f.node) if isinstance(s, ast.Assign) and isinstance(s.value, ast.Call) and call_name(s.value) == 'DispatchState']
-    ok = len(ds_new) == 1 and not cfg.reach(cfg.nodes_of(ds_new[0]), include_src=False) & set(cfg.nodes_of(ds_new[0])) and \
-        cfg.must_pass(cfg.nodes_of(ds_new[0]), cfg.entry, head)
+    ok = len(ds_new) == 1 and not dv.reach_f(cfg.nodes_of(ds_new[0]), include_src=False) & set(cfg.nodes_of(ds_new[0])) and \
+        dv.must_pass_f(cfg.nodes_of(ds_new[0]), cfg.entry, head)
     rep.check('R06.c', fkey(f, 'fresh DispatchState'), ok, 'one fresh DispatchState per dispatch, created before the loop' if ok else
               'DispatchState is not created once per request before the loop', app, ds_new[0] if ds_new else f.node)
 
 
-def _sentinel_rules(rep, repo, app, route):
-    # ---- R06.c -----------------------------------------------------------
+def sentinel_decision(repo, app, route):
+    """(FuncInfo, module, name of the dispatch state in it, key function) of the function that decides what the null
+    route answers with.  That is NullRoute.handle_sentinel_condition -- or, when every ``return`` of that endpoint hands
+    back the result of one and the same method of the dispatch state it was injected with (``return
+    _dispatch_state.<method>(..)``), that method of DispatchState, where the dispatch state is ``self``."""
     hs = route.func('NullRoute.handle_sentinel_condition')
     ds = [p for p in hs.params() if 'dispatch_state' in p]
     if not ds:
         raise AnalysisError('handle_sentinel_condition: dispatch state parameter not found')
-    ds = ds[0]
+    ds, mod = ds[0], route
+    dsc = app.classes.get('DispatchState')
+    for _ in range(3):
+        rets = returns_of(hs)
+        calls = [resolve_local(hs.node, r.value) for r in rets]
+        if not rets or not all(isinstance(c, ast.Call) and isinstance(c.func, ast.Attribute) and isinstance(c.func.value, ast.Name) and
+                               c.func.value.id == ds and c.func.attr == calls[0].func.attr for c in calls):
+            break
+        m = repo.find_method(dsc, calls[0].func.attr) if dsc is not None else None
+        if m is None or m.mod.external or not m.params():
+            break
+        c_ = cfg_of(hs)
+        if not c_.must_pass(c_.nodes_of_all(rets), c_.entry, c_.exit, normal_only=True):
+            break
+        hs, ds, mod = m, m.params()[0], m.mod
+    return hs, mod, ds
+
+
+def check_sentinel_priority(rep, rule, repo, app, route, only=None, most_recent=True):
+    """What the null route answers with when no route gave a final answer: the most recent recorded (non-breaking) error if
+    there is one; else, if methods were recorded, a 405 built from them; else a 404."""
+    hs, mod, ds = sentinel_decision(repo, app, route)
+    hs0 = route.func('NullRoute.handle_sentinel_condition')
     # other names of the dispatch state: single-definition locals bound to the parameter (``state = _dispatch_state``)
     from ..astutil import assigned_value
     ds_names = {ds}
@@ -294,25 +336,42 @@ def _sentinel_rules(rep, repo, app, route):
                 kinds['405'] = (r, cs, v)
             elif callee.endswith('not_found_type'):
                 kinds['404'] = (r, cs, v)
-    ok = 'exc' in kinds and has_cond(kinds['exc'][1], is_exc, True) and kinds['exc'][2] == '-1'
-    rep.check('R06.c', fkey(hs, 'last exception'), ok, 'recorded non-breaking errors win, and the most recent one is used' if ok else
-              'the sentinel does not return exceptions[-1] when errors were recorded', route, kinds.get('exc', (hs.node,))[0])
-    ok = '405' in kinds and has_cond(kinds['405'][1], is_exc, False) and has_cond(kinds['405'][1], is_am, True) and \
-        kwarg(kinds['405'][2], 'allowed_methods') is not None and norm(res(kwarg(kinds['405'][2], 'allowed_methods'))) == '%s.allowed_methods' % ds
-    rep.check('R06.c', fkey(hs, '405'), ok, 'else, if methods were recorded: 405 built with allowed_methods=dispatch_state.allowed_methods' if ok else
-              'the 405 branch is missing, mis-ordered, or not given the recorded methods', route, kinds.get('405', (hs.node,))[0])
-    ok = '404' in kinds and has_cond(kinds['404'][1], is_exc, False) and has_cond(kinds['404'][1], is_am, False)
-    rep.check('R06.c', fkey(hs, '404'), ok, 'else 404' if ok else 'the 404 branch is not the last resort', route, kinds.get('404', (hs.node,))[0])
+    want = lambda k: only is None or k in only
+    if want('exc'):
+        ok = 'exc' in kinds and has_cond(kinds['exc'][1], is_exc, True) and (kinds['exc'][2] == '-1' or not most_recent)
+        rep.check(rule, fkey(hs0, 'last exception' if most_recent else 'recorded error'), ok,
+                  ('recorded non-breaking errors win, and the most recent one is used' if most_recent else
+                   'a recorded non-breaking error is what the null route answers with') if ok else
+                  'the sentinel does not return exceptions[-1] when errors were recorded', mod, kinds.get('exc', (hs.node,))[0])
+    if want('405'):
+        ok = '405' in kinds and has_cond(kinds['405'][1], is_exc, False) and has_cond(kinds['405'][1], is_am, True) and \
+            (not most_recent or       # (what the 405 is built from is C06's question, asked together with "the most recent error")
+             (kwarg(kinds['405'][2], 'allowed_methods') is not None and
+              norm(res(kwarg(kinds['405'][2], 'allowed_methods'))) == '%s.allowed_methods' % ds))
+        rep.check(rule, fkey(hs0, '405'), ok, 'else, if methods were recorded: 405 built with allowed_methods=dispatch_state.allowed_methods' if ok else
+                  'the 405 branch is missing, mis-ordered (a recorded error must win over it), or not given the recorded methods', mod,
+                  kinds.get('405', (hs.node,))[0])
+    if want('404'):
+        ok = '404' in kinds and has_cond(kinds['404'][1], is_exc, False) and has_cond(kinds['404'][1], is_am, False)
+        rep.check(rule, fkey(hs0, '404'), ok, 'else 404' if ok else 'the 404 branch is not the last resort', mod, kinds.get('404', (hs.node,))[0])
+
+
+def _sentinel_rules(rep, repo, app, route):
+    # ---- R06.c -----------------------------------------------------------
+    check_sentinel_priority(rep, 'R06.c', repo, app, route)
     nri = route.func('NullRoute.__init__')
     sup = [c for c in walk_body(nri.node) if isinstance(c, ast.Call) and call_tail(c) == '__init__']
-    ok = len(sup) == 1 and len(sup[0].args) >= 2 and isinstance(sup[0].args[0], ast.Constant) and '*>' in sup[0].args[0].value and \
+    pat = repo.try_fold(sup[0].args[0], route) if len(sup) == 1 and sup[0].args else None     # (a literal, or a module-level constant)
+    ok = len(sup) == 1 and len(sup[0].args) >= 2 and isinstance(pat, str) and '*>' in pat and \
         norm(sup[0].args[1]) == 'self.handle_sentinel_condition'
     rep.check('R06.c', fkey(nri, 'catch-all'), ok, 'the null route matches every path and answers with the sentinel handler' if ok else
               'NullRoute is no longer a catch-all bound to handle_sentinel_condition', route, nri.node)
     # DispatchState bookkeeping
     dsc = app.cls('DispatchState')
     check_recording_order(rep, 'R06.c', repo, app, dsc)
-    um = dsc.methods['update_methods']
+    um = dsc.methods.get('update_methods')
+    if um is None:
+        raise AnalysisError('DispatchState.update_methods not found')
     ok = any(isinstance(c, ast.Call) and norm(c.func) == 'self.allowed_methods.update' for c in walk_body(um.node))
     rep.check('R06.d', fkey(um), ok, 'update_methods unions into allowed_methods' if ok else 'update_methods does not union', app, um.node)
     # the dispatch state only ever unions into containers of its own (never adopts a route's method set / list)
@@ -323,11 +382,43 @@ def _sentinel_rules(rep, repo, app, route):
                       'DispatchState.%s is its own freshly allocated container' % field if fresh else
                       'DispatchState.%s adopts %s and then mutates it in place: recording allowed methods / errors for one request rewrites '
                       'the routes\' own data for all later requests' % (field, short(st_.value)), app, st_)
-    dsi = dsc.methods['__init__']
-    asg = dict((norm(s.targets[0]), norm(s.value)) for s in stmts_of(dsi.node) if isinstance(s, ast.Assign))
-    ok = asg.get('self.exceptions') == '[]' and asg.get('self.allowed_methods') == 'set()'
-    rep.check('R06.c', fkey(dsi), ok, 'every request starts with an empty dispatch state' if ok else
-              'DispatchState does not start empty: %s' % asg, app, dsi.node)
+    check_state_starts_empty(rep, 'R06.c', repo, app, dsc)
+
+
+EMPTY_CONTAINERS = {'exceptions': ('[]', 'list()'), 'allowed_methods': ('set()',)}
+
+
+def check_state_starts_empty(rep, rule, repo, app, dsc):
+    """Every dispatch state starts with an empty error list and an empty method set *of its own*: the initial value of
+    each field is an empty-container expression evaluated once per instance -- in the constructor, or by the per-instance
+    factory of a declared field.  A value evaluated once for the class (``attr.ib(default=[])``, a class attribute the
+    constructor does not re-bind, a mutable parameter default) is one object shared by every request: what one request
+    records is still there for all later ones."""
+    from .dispatch import initial_fields
+    init = initial_fields(repo, dsc)
+    dsi = dsc.methods.get('__init__')
+    a_ = dsi.node.args if dsi is not None else None
+    pdef = dict(zip([x.arg for x in (a_.posonlyargs + a_.args)][len(a_.posonlyargs + a_.args) - len(a_.defaults):], a_.defaults)) if a_ else {}
+    if a_:
+        pdef.update((x.arg, d) for x, d in zip(a_.kwonlyargs, a_.kw_defaults) if d is not None)
+    bad, shown = [], {}
+    for field, empties in sorted(EMPTY_CONTAINERS.items()):
+        kind, expr, node = init.get(field, (None, None, None))
+        shown[field] = '%s %s' % (kind, norm(expr) if expr is not None else None)
+        if kind == 'own' and isinstance(expr, ast.Name) and expr.id in pdef and dsi is not None and node in stmts_of(dsi.node):
+            # ``def __init__(self, exceptions=[]): self.exceptions = exceptions``: the default is evaluated once
+            bad.append((field, 'takes the parameter default %s = %s, which is evaluated once, when the function is defined' % (expr.id, norm(pdef[expr.id])), node))
+        elif kind == 'own' and norm(expr) in empties:
+            continue
+        elif kind == 'shared':
+            bad.append((field, 'starts as %s, evaluated once when the class is created: one object shared by every dispatch state, so what '
+                        'one request records is still recorded for every later request' % norm(expr), node))
+        else:
+            bad.append((field, 'does not start as an empty container (%s)' % shown[field], node))
+    ok = not bad
+    anchor = dsi.node if dsi is not None else dsc.node
+    rep.check(rule, '%s::DispatchState.__init__' % APP, ok, 'every request starts with an empty dispatch state of its own' if ok else
+              'DispatchState does not start empty: %s' % '; '.join('%s %s' % (f, w) for f, w, n in bad), app, bad[0][2] if bad else anchor)
 
 
 def _list_target(fnode, e):
@@ -410,6 +501,39 @@ def check_recording_order(rep, rule, repo, app, dsc, field='exceptions', recorde
                           % (fi.key, short(e.node)), m, e.node)
 
 
+def _table_rows(repo, mod, fi, node, first, second):
+    """``node`` sits in a loop ``for a, b in TABLE`` of ``fi`` whose two loop variables are the names ``first`` and
+    ``second`` (not re-bound in the loop) and whose TABLE is a constant of the module -- a sequence of pairs, or
+    ``MAPPING.items()``: the rows [(a, b)] as constants.  None when that is not the shape."""
+    if not (isinstance(first, ast.Name) and isinstance(second, ast.Name)):
+        return None
+    for lp in [s for s in stmts_of(fi.node) if isinstance(s, ast.For) and any(n is node for n in ast.walk(s))]:
+        tg = lp.target
+        if not (isinstance(tg, (ast.Tuple, ast.List)) and [norm(e) for e in tg.elts] == [first.id, second.id] and first.id != second.id):
+            continue
+        if lp.orelse or any(isinstance(n, ast.Name) and n.id in (first.id, second.id) and isinstance(n.ctx, (ast.Store, ast.Del))
+                            for s in lp.body for n in ast.walk(s)):
+            return None
+        it, sentinel = lp.iter, object()
+        local_names = set(n.id for n in ast.walk(fi.node) if isinstance(n, ast.Name) and isinstance(n.ctx, (ast.Store, ast.Del))) | set(fi.params())
+        if any(isinstance(n, ast.Name) and n.id in local_names for n in ast.walk(it)):
+            return None          # (a local may shadow the module-level table)
+        if isinstance(it, ast.Call) and isinstance(it.func, ast.Attribute) and it.func.attr == 'items' and not it.args and not it.keywords:
+            table = repo.try_fold(it.func.value, mod, sentinel)
+            table = list(table.items()) if isinstance(table, dict) else sentinel
+        else:
+            table = repo.try_fold(it, mod, sentinel)
+        if table is sentinel or not isinstance(table, (tuple, list)):
+            return None
+        rows = []
+        for row in table:
+            if not (isinstance(row, (tuple, list)) and len(row) == 2 and all(isinstance(x, str) for x in row)):
+                return None
+            rows.append((row[0], row[1]))
+        return rows
+    return None
+
+
 def _method_rules(rep, repo, app, route):
     # ---- R06.d -----------------------------------------------------------
     ri = route.func('Route.__init__')
@@ -464,10 +588,29 @@ def _method_rules(rep, repo, app, route):
     ok = bool(rz) and all(any(p is True and unknown_of(t) for t, p in conds(ri, r)) for r in rz)
     rep.check('R06.d', fkey(ri, 'unknown methods rejected'), ok, 'methods outside HTTP_METHODS raise InvalidMethod' if ok else
               'unknown method names are not rejected', route, ri.node)
-    heads = [c for c in walk_body(ri.node) if isinstance(c, ast.Call) and call_tail(c) == 'add' and isinstance(c.func, ast.Attribute) and
-             norm(c.func.value) in holders and len(c.args) == 1 and isinstance(c.args[0], ast.Constant) and c.args[0].value == 'HEAD']
-    ok = len(heads) == 1 and has_cond(conds(ri, heads[0]), lambda t: norm(t) == "'GET' in %s" % norm(heads[0].func.value), True)
-    rep.check('R06.d', fkey(ri, 'GET implies HEAD'), ok, 'a GET route also admits HEAD' if ok else 'GET routes no longer admit HEAD', route, ri.node)
+    # methods a route admits beyond the declared ones: every ``<method set>.add(x)`` of the constructor is an implication
+    # "listed in the set => x is admitted too"; written out (``if 'GET' in ms: ms.add('HEAD')``) or as a loop over a constant
+    # table of (listed, implied) pairs (``for listed, implied in TABLE: if listed in ms: ms.add(implied)``).  The pairs must be
+    # exactly GET => HEAD.
+    adds = [c for c in walk_body(ri.node) if isinstance(c, ast.Call) and call_tail(c) == 'add' and isinstance(c.func, ast.Attribute) and
+            norm(c.func.value) in holders and len(c.args) == 1 and not c.keywords]
+    pairs, followed = set(), bool(adds)
+    for c in adds:
+        holder, x, cs = norm(c.func.value), c.args[0], conds(ri, c)
+        listed = [t.left for t, p in cs if p is True and isinstance(t, ast.Compare) and len(t.ops) == 1 and isinstance(t.ops[0], ast.In) and
+                  norm(t.comparators[0]) == holder]
+        if isinstance(x, ast.Constant) and len(listed) == 1 and isinstance(listed[0], ast.Constant):
+            pairs.add((listed[0].value, x.value))
+            continue
+        rows = _table_rows(repo, route, ri, c, listed[0] if len(listed) == 1 else None, x)
+        if rows is None:
+            followed = False
+        else:
+            pairs |= set(rows)
+    ok = followed and len(adds) == 1 and pairs == {('GET', 'HEAD')}
+    rep.check('R06.d', fkey(ri, 'GET implies HEAD'), ok, 'a GET route also admits HEAD (and nothing else is admitted implicitly)' if ok else
+              'GET routes no longer admit HEAD, or a route admits other methods it does not list (implied methods: %s)'
+              % (sorted(pairs, key=repr) if followed else 'not a "listed in methods => add implied" statement'), route, adds[0] if adds else ri.node)
     hm = set(route.const('HTTP_METHODS'))
     need = {'GET', 'HEAD', 'POST', 'PUT', 'DELETE', 'OPTIONS', 'TRACE', 'CONNECT', 'PATCH'}
     rep.check('R06.d', '%s::HTTP_METHODS' % ROUTE, need <= hm, 'HTTP_METHODS holds the nine standard methods' if need <= hm else
@@ -507,6 +650,14 @@ def _method_rules(rep, repo, app, route):
         mcfg.must_pass(mcfg.nodes_of_all(returns_of(mmf)), mcfg.entry, mcfg.exit, normal_only=True)
     rep.check('R06.d', fkey(mmf), ok, 'a request is refused only if methods is non-empty and METHOD.upper() is not in it' if ok else
               'match_method no longer compares the upper-cased request method against a non-empty method set', route, mmf.node)
+    # ... and what is compared is the method of the request: the parameter is not re-bound on the way to the test (a method
+    # translated / replaced first is looked up under another name than the one the route lists)
+    rebinds = [n for n in walk_body(mmf.node) if isinstance(n, ast.Name) and n.id == mp and isinstance(n.ctx, (ast.Store, ast.Del))]
+    rep.check('R06.d', fkey(mmf, 'the request method itself'), not rebinds,
+              'the method tested against the route\'s set is the request\'s own' if not rebinds else
+              'match_method re-binds its parameter %r before the membership test: the route\'s method set is asked about another method '
+              'than the one requested (a route listing the requested method can refuse it)' % mp, route,
+              stmt_of(route, rebinds[0]) if rebinds else mmf.node)
     for q in ('GET', 'POST', 'PUT', 'DELETE', 'HEAD', 'OPTIONS', 'TRACE', 'CONNECT', 'PATCH'):
         ci = route.classes.get(q)
         if ci is None:
